@@ -20,6 +20,15 @@ def output_filter(prog, rep):
     for r in early:
         empty = isinstance(r.value, ast.List) and not r.value.elts
         rep.check(empty, "POSITIVE", fi.short, f"early return {norm(r)[:50]}", "returns the empty list", f"`{norm(r)}` leaves flood before the sweep and the positive-duration filter: zero-length events in the input are returned as they are", fi.loc(r))
+    # event fields may be rewritten only inside the sweep (where THRESHOLD / FILL bound what happens): any other loop that
+    # assigns timestamp / duration closes or opens time without a gap test
+    if loops:
+        sweep = loops[0]
+        for other in [n for n in walk_own(fi.node) if isinstance(n, (ast.For, ast.While)) and n is not sweep and not any(n is x for x in ast.walk(sweep))]:
+            ws = [a for a in ast.walk(other) if isinstance(a, (ast.Assign, ast.AugAssign)) and any(isinstance(t, ast.Attribute) and t.attr in ("timestamp", "duration") for t in (a.targets if isinstance(a, ast.Assign) else [a.target]))]
+            if ws:
+                rep.violation("POSITIVE", fi.short, f"second pass at line {other.lineno}", f"`{norm(ws[0])[:70]}` rewrites event fields outside the sweep: nothing there compares the distance between the events with the pulsetime, so neighbours further apart than the pulsetime can be joined (or time lost)", fi.loc(ws[0]))
+        loops = loops[:1] if all(not any(isinstance(a, (ast.Assign, ast.AugAssign)) for a in ast.walk(l)) or l is loops[0] for l in loops) else loops
     if len(rets) != 1 or len(loops) != 1:
         rep.undecided("POSITIVE", fi.short, "return", f"{len(rets)} returns / {len(loops)} loops", fi.loc())
         return
@@ -181,6 +190,10 @@ def check(prog, rep):
     rep.rule("PURE", "no write at or below the input parameter, at any depth (E2)")
     purity_rule(prog, rep, "flood", ["events"])
     output_filter(prog, rep)
+    # flood assigns its results through Event.duration: what it assigns must be what is stored (C13's DURATION rule)
+    from .c13 import duration_dispatch
+
+    duration_dispatch(prog, rep)
     sweep_rules(prog, rep)
 
 
@@ -202,6 +215,8 @@ VARIANTS = [
     ("B early return for short lists skips the filter", F, "    events = deepcopy(events)\n    events = sorted(", "    events = deepcopy(events)\n    if len(events) < 2:\n        return events\n    events = sorted(", "POSITIVE"),
     ("B pairs whose left event is empty are skipped", F, "        if not gap:\n            continue", "        if not gap or not e1.duration:\n            continue", "THRESHOLD"),
     ("B gaps under a second left open", F, "        if not gap:\n            continue", "        if gap < timedelta(seconds=1):\n            continue", "THRESHOLD"),
+    ("B second pass joins equal-data neighbours without a gap test", F, "    return events\n", "    joined = []\n    for e in events:\n        if joined and joined[-1].data == e.data:\n            joined[-1].duration = (e.timestamp + e.duration) - joined[-1].timestamp\n        else:\n            joined.append(e)\n    return joined\n", "POSITIVE"),
+    ("B durations truncated to milliseconds by the Event setter", "aw_core/models.py", '            self["duration"] = duration\n', '            self["duration"] = timedelta(milliseconds=int(duration.total_seconds() * 1000))\n', "DURATION"),
     ("OK empty input returns early", F, "    events = deepcopy(events)\n    events = sorted(", "    if not events:\n        return []\n    events = deepcopy(events)\n    events = sorted(", "ok"),
     ("OK comparison flipped", F, "if e1.duration >= e2.duration:", "if e2.duration <= e1.duration:", "ok"),
     ("OK temp inlined", F, "                    e2.duration = e2_end - e2.timestamp\n                    e1.duration = timedelta(0)", "                    e2.duration = e2_end - e1.timestamp\n                    e1.duration = timedelta(0)", "ok"),
